@@ -109,7 +109,7 @@ CHECKS["C05"] = (
     "side / delete of either entity / link to a missing entity: both sides equal and positive, or both absent.",
     BASE_NOTE + "Also: links given as a field of the entity (PersistContext.SetLinkedIds) on create / update / patch with lists over two existing and one missing target; "
     "thorough runs a history of two operations in the symmetry harness; SetLinks / RemoveLinks / RemoveLink / AddLink (with their changed flags) over any subset of four adjacent targets inside the "
-    "transaction that just linked them (live-node iteration, values not yet committed). Both sides are read from the raw list buckets and through GetLinks / IsLinked / IterateLinks. SetLinkCount with a negative count is outside (no documented meaning).",
+    "transaction that just linked them (live-node iteration, values not yet committed). Both sides are read from the raw list buckets and through GetLinks / IsLinked / IterateLinks. The one-sided compound-key primitives (AddCompoundLink / RemoveCompoundLink over lists of 0..2 strings of <=1 byte, AddLinkS): a list is linked iff it is the same list, removing another list removes nothing, a missing entity is refused. SetLinkCount with a negative count is outside (no documented meaning).",
     "6/C05")
 CHECKS["C16"] = (
     "Population of 2 slots (absent / ordinary / system, symbolic), then one transaction of 2 (quick) / 3 (thorough) symbolic operations (create / update / delete, "
